@@ -173,6 +173,43 @@ def run(tier, seed, rng):
             failures.append(dict(kind='oracle', sig='stack-offset', what=f"PacketError says field {name!r} of {cls} begins at {off_rep}, but the fields before it end at {begin}",
                                  classes=pktprops.class_source(groups, r['group']), cls=cls, case=dict(raw=r['raw'].hex(), offset=r['offset']),
                                  observed=r['outcome']))
+    # ---- the same when serializing: the failing field begins where the cursor stands after the fields before it (and its own
+    # positioning) have been serialized; established on the implementation with the class cut there
+    candp = []
+    for d in disagreements:
+        cs = d['case']
+        oo = cs.get('outcome') if isinstance(cs.get('outcome'), dict) else None
+        if cs.get('kind') == 'roundtrip' and oo and isinstance(oo.get('packed'), dict):
+            oo = oo['packed']
+        if oo and oo.get('err') == 'packing' and len(oo['stack']) == 1:
+            candp.append((d, oo))
+    for d, oo in candp[:8]:
+        r = records[d['index']]
+        off_rep, name, cls = oo['stack'][0]
+        m = _re.fullmatch(r"f(\d+)", name)
+        if not m or cls != decl.cname(r['c']):
+            continue
+        i = int(m.group(1))
+        value = r['value'] if r['kind'] == 'pack' else pktprops.uncanon(r['outcome'].get('ok'))
+        if not (isinstance(value, tuple) and value[0] == 'pkt'):
+            continue
+        table = _copy.deepcopy(pktprops.table_of(groups, r['group']))
+        fs = table[r['c']]['fields']
+        if fs[i]['body'][0] == 'bits' or (i > 0 and fs[i - 1]['body'][0] == 'bits'):
+            continue
+        table[r['c']]['fields'] = fs[:i] + ([dict(move=fs[i]['move'], body=('em',))] if fs[i].get('move') else [])
+        G = pktcases.Group(table, 0)
+        cut = ('pkt', value[1], {k: v for k, v in value[2].items() if k < i})
+        try:
+            res = run_impl(os.path.join(VERIF, 'harness', 'impl_pkt.py'),
+                           dict(header=decl.HEADER_PY, blocks=G.blocks(), modname='c12p',
+                                cases=[dict(cls=decl.cname(r['c']), op='pack_cursor', value=pktcases.jvalue(cut))]))
+        except Exception:
+            continue
+        begin = res['outcomes'][0].get('cursor')
+        if begin is not None and begin != off_rep:
+            failures.append(dict(kind='oracle', sig='stack-offset-pack', what=f"serializing: PacketError says field {name!r} of {cls} begins at {off_rep}, but after the fields before it (and its positioning) the cursor stands at {begin}",
+                                 classes=pktprops.class_source(groups, r['group']), cls=cls, value=decl.py_value(value), observed=oo))
     # ---- finding D12: descriptor hooks run outside the wrapped region
     probe = run_impl(os.path.join(VERIF, 'harness', 'impl_d12.py'), {})
     for cls, bad, what in probe:
